@@ -599,7 +599,7 @@ class Enumerator:
                     eff = (not dec) if neg else dec
                     bi = tr if eff else fl
                     continue
-                if t["ty"] in ("char", "u32", "u8") and not is_const(on):
+                if t["ty"] in ("char", "u32", "u8", "usize", "u64", "u16", "i32", "i64", "isize") and not is_const(on):
                     # a match on character / integer constants: keep which constant was taken
                     key = f"int:{self.key_of(op_place(on))}"
                     vals_ = [val for val, bb in targets]
